@@ -127,6 +127,15 @@ impl fmt::Display for Formatter {
             Ok(())
         };
 
+        // The weekday of the calendar date that is printed, i.e. in the epoch's own time scale:
+        // read the elapsed time since 1900-01-01 of that time scale's calendar as a TAI epoch.
+        let civil_weekday = || {
+            Epoch::from_tai_duration(
+                self.epoch.duration + self.epoch.time_scale.gregorian_epoch_offset(),
+            )
+            .weekday()
+        };
+
         if self.format.need_gregorian() {
             // This is a specific branch so we don't recompute the gregorian information for each token.
             let (y, mm, dd, hh, min, s, nanos) =
@@ -217,11 +226,11 @@ impl fmt::Display for Formatter {
                     }
                     Token::Weekday => {
                         write_sep(f, i, &self.format)?;
-                        write!(f, "{}", self.epoch.weekday())?
+                        write!(f, "{}", civil_weekday())?
                     }
                     Token::WeekdayShort => {
                         write_sep(f, i, &self.format)?;
-                        write!(f, "{:x}", self.epoch.weekday())?
+                        write!(f, "{:x}", civil_weekday())?
                     }
                     Token::WeekdayDecimal => {
                         write_sep(f, i, &self.format)?;
@@ -292,11 +301,11 @@ impl fmt::Display for Formatter {
                     }
                     Token::Weekday => {
                         write_sep(f, i, &self.format)?;
-                        write!(f, "{}", self.epoch.weekday())?
+                        write!(f, "{}", civil_weekday())?
                     }
                     Token::WeekdayShort => {
                         write_sep(f, i, &self.format)?;
-                        write!(f, "{:x}", self.epoch.weekday())?
+                        write!(f, "{:x}", civil_weekday())?
                     }
                     _ => unreachable!(),
                 };
